@@ -190,17 +190,23 @@ def staged_doc(prog, max_blocks=60, methods_too=False):
             # (`methods_too`: a further view in which small private methods shared by a few sites are spliced as well)
             if len(cs) > 4 or len(f["mir"]["blocks"]) > 25 or k in has_closures or (imp.get("self") and not methods_too):
                 continue
-        if any((prog.fns.get(c) or {}).get("kind") == "Closure" for c in callers):
-            continue
+        if any((prog.fns.get(c) or {}).get("kind") == "Closure" for c in callers) and not (methods_too and imp.get("self") and len(f["mir"]["blocks"]) <= 12):
+            continue                    # (further view: a short private method may be spliced into a closure of its own type's methods too)
         if Body(f).loops():
             continue                    # a stage with a loop of its own is a unit the rules know by role (scan, join, look-up); only straight stages are spliced
         ok_home = True
         for caller in callers:
             cf = prog.fns.get(caller) or {}
+            if cf.get("kind") == "Closure":
+                cf = prog.fns.get(prog.owner_fn(caller)) or {}          # a closure lives where the function it is written in lives
             cimp = cf.get("impl") or {}
             same_home = (imp.get("self") and imp.get("self") == cimp.get("self")) or \
                         (not imp.get("self") and not cimp.get("trait") and k.rsplit("::", 1)[0] == (cimp.get("self") or caller).rsplit("::", 1)[0]) or \
                         (not imp.get("self") and k.rsplit("::", 1)[0] == (cimp.get("self") or caller).rsplit("::", 1)[0])
+            if not same_home and imp.get("self") and not imp.get("trait"):
+                # a method of a dissolved helper struct (a newtype around the key map with its own `get`) is at home in the struct that embeds it
+                from . import mir as _mir
+                same_home = any(d_["helper"] == imp.get("self") and d_["owner"] == cimp.get("self") for d_ in _mir.DISSOLVE.values())
             if not same_home:
                 ok_home = False
         if not ok_home:
